@@ -7,6 +7,7 @@
 
 mod engines {
 	pub mod encoding;
+	pub mod json;
 	pub mod tomlorder;
 }
 mod props {
@@ -40,6 +41,10 @@ fn main() {
 			"C07" => {
 				engines::encoding::run(&mut out, &mut rng.fork(), thorough);
 				props::c07::run(&mut out, &mut rng.fork(), thorough);
+			}
+			// Development entry for the JSON model slice (not a property id).
+			"JSONDEV" => {
+				engines::json::run(&mut out, &mut rng.fork(), thorough);
 			}
 			_ => {
 				eprintln!("unknown property {prop}");
